@@ -59,6 +59,9 @@ CHECKS = {
             "trusted: numpy/scipy/math arithmetic; carriers as stated in the property (non-negative for max/min with mul, booleans for and/or)", "DESIGN.md §6 C15"),
 }
 LEVELS = {"C17": "fault_enumeration"}
+CHECKS["C06"] = ("type monitor on reflect.interpret (one-step typing check of every constructed term against independent rules; Tensor data shape/dtype/range invariant) + lazy-vs-eager declaration differential + find_domain catalogue vs numpy with exhaustive bounded-integer images",
+            "Every term built while all engines run is checked against the typing rule applied to its children's declared types, every Tensor against its declaration; generated programs are built lazily and eagerly and their declarations compared; every op of the catalogue is applied to arrays of every operand domain/parameter combination in range and compared with the statically declared domain. Exploration.",
+            "trusted: fv/ir.py typing rules, numpy; ops are exercised on their carriers only (real-valued ops on reals, and/or/xor/invert on booleans)", "DESIGN.md §6 C06")
 CHECKS["C20"] = ("mutation monitor: write-protected leaf arrays (write attempts raise at the write site) + content snapshots of every array, every funsor passed to any rule and every result, re-verified after each program and at the end of the run",
             "All engines are run with every user-supplied array read-only and hashed; the dispatch monitor snapshots each funsor the first time it is handed to a rule; after each program and at the end of the shard every snapshot must still match. Exploration.",
             "trusted: numpy write protection, sha1 content hashes; memoised attributes are not considered part of a term's value", "DESIGN.md §6 C20")
